@@ -186,3 +186,22 @@ brk("c04-unfix-frozen", ["C04"], (SIGN, "        self.envelope = cbor2.CBORTag(i
     (SIGNCMD, "    return cbor2.CBORTag(envelope.tag, dict(envelope.value))", "    return envelope"))
 ben("c04-width-int-arith", ["C04"], (KMS, '        return r.to_bytes(math.ceil(private_key.key_size / 8), byteorder="big") + s.to_bytes(\n            math.ceil(private_key.key_size / 8), byteorder="big"', '        return r.to_bytes((private_key.key_size + 7) // 8, byteorder="big") + s.to_bytes(\n            (private_key.key_size + 7) // 8, byteorder="big"'))
 ben("c04-inline-block", ["C04"], (SIGN, "        new_auth = self.create_authentication_block(protected, unprotected, signature)\n", "        new_auth = cbor2.CBORTag(18, [cbor2.dumps(protected), unprotected if unprotected is not None else {}, None, signature])\n"))
+
+# ------------------------------------------------------------------ C10 cache
+brk("c10-header-59-4bytes", ["C10"], (CACHE, 'slot_data += bytes([0x5A]) + len(data).to_bytes(4, byteorder="big") + data', 'slot_data += bytes([0x59]) + len(data).to_bytes(4, byteorder="big") + data'))
+brk("c10-len-2bytes-when-small", ["C10"], (CACHE, 'slot_data += bytes([0x5A]) + len(data).to_bytes(4, byteorder="big") + data', 'slot_data += (bytes([0x59]) + len(data).to_bytes(2, byteorder="big") if len(data) < 65536 else bytes([0x5A]) + len(data).to_bytes(4, byteorder="big")) + data'))
+brk("c10-little-endian", ["C10"], (CACHE, 'len(data).to_bytes(4, byteorder="big") + data', 'len(data).to_bytes(4, byteorder="little") + data'))
+brk("c10-bf-every-slot", ["C10"], (CACHE, "            slot_data = bytes([0xBF])\n            self.first_slot = False", "            slot_data = bytes([0xBF])"))
+brk("c10-no-dup-check", ["C10"], (CACHE, "        if uri in self.uris:\n            raise ValueError(f\"URI {uri} already exists in the cache!\")\n", ""))
+brk("c10-dup-check-after", ["C10"], (CACHE, "        if uri in self.uris:\n            raise ValueError(f\"URI {uri} already exists in the cache!\")\n        self.uris.append(uri)\n", "        self.uris.append(uri)\n        if self.uris.count(uri) > 2:\n            raise ValueError(f\"URI {uri} already exists in the cache!\")\n"))
+brk("c10-bump-dropped", ["C10"], (CACHE, "        if padding_size == 1:\n            padding_size += self.eb_size\n            rounded_up_size += self.eb_size\n", ""))
+brk("c10-bump-unpaired", ["C10"], (CACHE, "            padding_size += self.eb_size\n            rounded_up_size += self.eb_size\n", "            padding_size += self.eb_size\n"))
+brk("c10-short-limit-24", ["C10"], (CACHE, "        if padding_size <= 23:\n            header_len = 2", "        if padding_size <= 26:\n            header_len = 2"))
+brk("c10-header-len-3", ["C10"], (CACHE, "            header_len = 4\n            padded_data += bytes([0x59])", "            header_len = 3\n            padded_data += bytes([0x59])"))
+brk("c10-pad-ff", ["C10"], (CACHE, 'return padded_data.ljust(rounded_up_size, b"\\x00")', 'return padded_data.ljust(rounded_up_size, b"\\xff")'))
+brk("c10-pad-key-bstr", ["C10"], (CACHE, "        padded_data += bytes([0x60])", "        padded_data += bytes([0x40])"))
+brk("c10-no-close", ["C10"], (CACHE, "        self.cache_data += bytes([0xFF])\n", ""))
+brk("c10-merge-skips-short", ["C10"], (CACHE, "            if len(k) == 0:\n                continue  # Empty key means padding - skip", "            if len(k) <= 1:\n                continue  # Empty key means padding - skip"))
+brk("c10-merge-wrong-value", ["C10"], (CACHE, "            self.add_cache_slot(k, cache_dict[k])", "            self.add_cache_slot(k, cache_dict[k][:0xFFFF])"))
+ben("c10-int-roundup", ["C10"], (CACHE, "rounded_up_size = math.ceil(len(data) / self.eb_size) * self.eb_size", "rounded_up_size = ((len(data) + self.eb_size - 1) // self.eb_size) * self.eb_size"))
+ben("c10-rename", ["C10"], (CACHE, "padded_data", "out", "all"))
